@@ -86,6 +86,14 @@ def run (op : String) (j : Json) : Except String Json := do
     let prs := cs.zip rs
     pure (Json.mkObj [("epsilon", listToJson ratToJson ((List.range k).map (BootErr.epsilon prs))),
                       ("delta", listToJson ratToJson (BootErr.delta prs))])
+  | "boot.interp" =>
+    -- np.interp(x, xp, fp, left, right) for each query x
+    let xs ← listOf ratOfJson (← field j "xs")
+    let xp ← listOf ratOfJson (← field j "xp")
+    let fp ← listOf ratOfJson (← field j "fp")
+    let left ← ratOfJson (← field j "left")
+    let right ← ratOfJson (← field j "right")
+    pure (listToJson ratToJson (xs.map (fun x => BootErr.interp x left right (xp.zip fp))))
   | "boot.quantile" =>
     let xs ← listOf ratOfJson (← field j "xs")
     let q ← ratOfJson (← field j "q")
